@@ -347,6 +347,16 @@ func (p *prover) linBinOp(x *ssa.BinOp) linExpr {
 				}
 				p.add(constraint{b.sub(r).add(linConst(-1)), "x % y < y"})
 			}
+			// x = c*(x/c) + x%c when the quotient by the same constant is computed as well
+			if c, isC := constInt(x.Y); isC && c > 0 && (uns || p.holds(a)) {
+				for _, ref := range referrers(x.X) {
+					if q, ok := ref.(*ssa.BinOp); ok && q.Op == token.QUO && q.X == x.X && q.Parent() == x.Parent() {
+						if c2, isC2 := constInt(q.Y); isC2 && c2 == c {
+							p.eqFact(a, p.lin(q).scale(c).add(r), "x = c*(x/c) + x%c")
+						}
+					}
+				}
+			}
 		}
 		return r
 	case token.QUO:
@@ -783,12 +793,20 @@ func (p *prover) linCall(x *ssa.Call) linExpr {
 			if !p.defined[k] {
 				p.defined[k] = true
 				p.rangeFacts(k, x.Type())
+				allNonNeg := true
 				for _, a := range cc.Args {
 					if b.Name() == "min" {
 						p.add(constraint{p.lin(a).sub(linVar(k)), "min <= arg"})
 					} else {
 						p.add(constraint{linVar(k).sub(p.lin(a)), "max >= arg"})
 					}
+					if !p.holds(p.lin(a)) {
+						allNonNeg = false
+					}
+				}
+				if allNonNeg && b.Name() == "min" {
+					// the result is one of the arguments
+					p.add(constraint{linVar(k), "min of non-negative arguments >= 0"})
 				}
 			}
 			return linVar(k)
